@@ -1,4 +1,4 @@
-\* repaired model, base chain 0..1, bloom-window boundary between blocks 1 and 2, 7 operations x {ok,fail,crash}; exhaustive: 8 467 distinct states (58 328 generated), 3 s
+\* repaired model, base chain 0..1, bloom-window boundary between blocks 1 and 2, 7 operations x every durable mutation (those of the lazy filter initialisation included) x {ok,fail,crash}; exhaustive: 8 467 distinct states (60 742 generated), 3 s
 CONSTANTS
   MaxH = 3
   MaxVer = 2
